@@ -2,6 +2,7 @@ package govc
 
 import (
 	"fmt"
+	"go/constant"
 	"go/types"
 	"os"
 	"path/filepath"
@@ -32,6 +33,7 @@ type World struct {
 	pure      map[string]bool
 	noHeap    map[string]bool
 	LoadErrs  []string
+	specLits  []string
 }
 
 func LoadWorld(repo string, patterns []string, verifDir string) (*World, error) {
@@ -226,7 +228,110 @@ func (w *World) FuncRef(f *ssa.Function) string {
 	return fmt.Sprintf("(- %d)", 1000000+id)
 }
 
-func (w *World) globalFacts(e *FnEnc) {}
+// globalFacts asserts the axioms of the contract files and the values of the case-mapping functions on the
+// string literals of the function and of the contracts (computed by the real Go functions).
+func (w *World) globalFacts(e *FnEnc) {
+	env := &Env{e: e, st: e.initState, old: e.initState, vars: map[string]Val{}, guard: "true"}
+	for _, ax := range w.Contracts.Axioms {
+		if sp, ok := w.SSAPkgs[ax.Pkg]; ok {
+			env.pkg = sp.Pkg
+		} else if e.fn.Pkg != nil {
+			env.pkg = e.fn.Pkg.Pkg
+		}
+		t, err := env.EvalBool(ax.Expr)
+		if err != nil {
+			e.bindFail("axiom", err.Error()+" in "+ax.Src)
+			continue
+		}
+		e.emit(fmt.Sprintf("(assert %s)", t))
+		e.note("axiom: " + ax.Src)
+	}
+	lits := map[string]bool{}
+	for _, b := range e.fn.Blocks {
+		for _, in := range b.Instrs {
+			for _, op := range in.Operands(nil) {
+				if c, ok := (*op).(*ssa.Const); ok && c.Value != nil && isString(c.Type()) {
+					lits[constant.StringVal(c.Value)] = true
+				}
+			}
+		}
+	}
+	for _, l := range w.specLiterals() {
+		lits[l] = true
+	}
+	for _, l := range sortedKeys(lits) {
+		if len(l) > 64 {
+			continue
+		}
+		e.emit(fmt.Sprintf("(assert (= (str.upper %s) %s))", strLit(l), strLit(strings.ToUpper(l))))
+		e.emit(fmt.Sprintf("(assert (= (str.lower %s) %s))", strLit(l), strLit(strings.ToLower(l))))
+	}
+}
+
+func (w *World) specLiterals() []string {
+	if w.specLits != nil {
+		return w.specLits
+	}
+	seen := map[string]bool{}
+	var walk func(x Expr)
+	walk = func(x Expr) {
+		switch n := x.(type) {
+		case *EStr:
+			seen[n.V] = true
+		case *EUnary:
+			walk(n.X)
+		case *EBinary:
+			walk(n.X)
+			walk(n.Y)
+		case *ECall:
+			for _, a := range n.Args {
+				walk(a)
+			}
+		case *EField:
+			walk(n.X)
+		case *EIndex:
+			walk(n.X)
+			walk(n.I)
+		case *EOld:
+			walk(n.X)
+		case *EQuant:
+			walk(n.Body)
+			for _, v := range n.Vars {
+				if v.Lo != nil {
+					walk(v.Lo)
+					walk(v.Hi)
+				}
+				if v.Keys != nil {
+					walk(v.Keys)
+				}
+			}
+		}
+	}
+	for _, p := range w.Contracts.Preds {
+		walk(p.Body)
+	}
+	for _, a := range w.Contracts.Axioms {
+		walk(a.Expr)
+	}
+	for _, f := range w.Contracts.Funcs {
+		for _, c := range f.Requires {
+			walk(c.Expr)
+		}
+		for _, c := range f.Ensures {
+			walk(c.Expr)
+		}
+		for _, l := range f.Loops {
+			for _, c := range l.Invariants {
+				walk(c.Expr)
+			}
+		}
+	}
+	w.specLits = sortedKeys(seen)
+	if w.specLits == nil {
+		w.specLits = []string{}
+	}
+	return w.specLits
+}
 
 // Header returns the declarations shared by all queries.
 func (w *World) Header() string {
@@ -343,9 +448,40 @@ func (w *World) SpecConst(env *Env, name string) (Val, bool) {
 	return Val{}, false
 }
 
-// SpecFunc: uninterpreted spec functions declared with "ufunc" are handled here (none yet).
+// SpecFunc resolves uninterpreted spec functions declared with "ufunc".
 func (w *World) SpecFunc(env *Env, name string, args []Expr) (Val, bool) {
-	return Val{}, false
+	uf, ok := w.Contracts.UFuncs[name]
+	if !ok {
+		return Val{}, false
+	}
+	if len(args) != len(uf.Params) {
+		fail("ufunc %s expects %d arguments", name, len(uf.Params))
+	}
+	var sorts, ts []string
+	for i, a := range args {
+		v := env.eval(a)
+		ty := w.ResolveType(uf.Params[i].Type, env.pkg)
+		if ty == nil {
+			fail("ufunc %s: unknown type %s", name, uf.Params[i].Type)
+		}
+		if isFloat(ty) && env.sortOf(v) == "Int" {
+			v = env.toFloat(v)
+		}
+		sorts = append(sorts, w.Sorts.SortOf(ty))
+		ts = append(ts, v.T)
+	}
+	rt := w.ResolveType(uf.Result, env.pkg)
+	if rt == nil {
+		fail("ufunc %s: unknown result type %s", name, uf.Result)
+	}
+	if len(ts) == 0 {
+		if _, ok := w.ufs["spec."+name]; !ok {
+			w.ufs["spec."+name] = fmt.Sprintf("(declare-fun spec.%s () %s)", name, w.Sorts.SortOf(rt))
+			w.ufOrder = append(w.ufOrder, "spec."+name)
+		}
+		return Val{T: "spec." + name, Ty: rt}, true
+	}
+	return Val{T: w.UF("spec."+name, sorts, w.Sorts.SortOf(rt), ts...), Ty: rt}, true
 }
 
 // contractModHeaps returns the heap variables a callee's modifies clauses can touch (by type).
@@ -397,4 +533,28 @@ func (w *World) contractModHeaps(e *FnEnc, con *FuncContract, callee *ssa.Functi
 	}
 	sort.Strings(out)
 	return out
+}
+
+// ghostSort maps a ghost variable's declared type to an SMT sort: scalars, map[K]V (a total array) and set[K].
+func (w *World) ghostSort(t string, fn *ssa.Function) string {
+	var pkg *types.Package
+	if fn.Pkg != nil {
+		pkg = fn.Pkg.Pkg
+	}
+	t = strings.TrimSpace(t)
+	if strings.HasPrefix(t, "set[") && strings.HasSuffix(t, "]") {
+		k := w.ResolveType(t[4:len(t)-1], pkg)
+		if k == nil {
+			return ""
+		}
+		return "(Array " + w.Sorts.SortOf(k) + " Bool)"
+	}
+	ty := w.ResolveType(t, pkg)
+	if ty == nil {
+		return ""
+	}
+	if mt, ok := ty.Underlying().(*types.Map); ok {
+		return "(Array " + w.Sorts.SortOf(mt.Key()) + " " + w.Sorts.SortOf(mt.Elem()) + ")"
+	}
+	return w.Sorts.SortOf(ty)
 }
